@@ -1188,9 +1188,9 @@ class NodeLambda:
             expressions = block.expressions
             if len(expressions) > 0:
                 lastexpr = expressions[-1]
-                if isinstance(lastexpr, NodeReturn):
+                if isinstance(lastexpr, NodeReturn) and lastexpr.expression:
                     expressions[-1] = lastexpr.expression
-        elif isinstance(body, NodeReturn):
+        elif isinstance(body, NodeReturn) and body.expression:
             body = body.expression
         self.body = body
 
